@@ -368,6 +368,10 @@ func (es *SearchEngineState) MATCHRANGE(from string, to string, not bool) {
 
 	for i := max; i >= min; i-- {
 		value := es.READ(i)
+		if value == "" {
+			// not enough input left for a text of this length
+			continue
+		}
 		if (from <= value && value <= to && !not) || ((from > value || value > to) && not) {
 			es.CONSUME(i)
 			es.NEXT()
@@ -381,6 +385,11 @@ func (es *SearchEngineState) MATCHRANGE(from string, to string, not bool) {
 func (es *SearchEngineState) MATCHLETTER(not bool) {
 	// TODO I would prefer if I had a generic way to do these multirange searches
 	value := es.READ(1)
+	if value == "" {
+		// end of the input: there is no character, letter or not
+		es.BACKTRACK()
+		return
+	}
 	if ("a" <= value && value <= "z") || ("A" <= value && value <= "Z") {
 		if not {
 			es.BACKTRACK()
